@@ -91,6 +91,11 @@ theorem method_is_one_block (es : List Ev) (h1 : wellLocked es = true) (h2 : sin
     (∃ body, es = .rlock :: body ++ [.runlock] ∧ body.all Ev.isRead = true) :=
   single_section_shape es h1 h2
 
+/-- (7) has teeth: a path that decides under the read lock and acts under the write lock (the check-then-act
+    shape of seeded changes C08-k / C08-l) is well-locked but NOT a single section. -/
+example : wellLocked [.rlock, .read 0, .read 1, .runlock, .lock, .read 0, .write 1, .unlock] = true ∧
+    singleSection [.rlock, .read 0, .read 1, .runlock, .lock, .read 0, .write 1, .unlock] = false := by decide
+
 /-- Non-vacuity: the extracted methods themselves satisfy the premise of (2)–(4). -/
 example : ∀ es ∈ Car.Facts.lockTable.map (·.2), wellLocked es = true := by
   intro es hes
